@@ -240,6 +240,7 @@ site('decl.c', 'staticassert', 'error', 'static assertion failed',
      T('decl', 'struct s_ { int a; _Static_assert(sizeof(int) == 3); };'))
 site('decl.c', 'staticassert', 'error', 'static assertion failed: %.*s',
      T('decl', '_Static_assert(0, "msg_");', 'failed: msg_'),
+     T('decl', '_Static_assert(0, "");', 'failed'), T('decl', '_Static_assert(sizeof(int) == 1, "" "");', 'failed'), T('decl', 'struct s_ { int a; _Static_assert(0, ""); };', 'failed'),
      T('decl', '_Static_assert(sizeof(char) == 2, "a_" "b_");', 'failed: a_b_'),
      T('decl', 'struct s_ { int a; _Static_assert(1 > 2, "in struct"); };', 'in struct'))
 site('decl.c', 'staticassert', 'expect', 'TLPAREN after static_assert', T('decl', '_Static_assert 1, "m";'))
